@@ -270,6 +270,19 @@ def check_moves(ck, P, rid):
                 dtxt, stxt, ltxt = _arg_text(d[1]), _arg_text(s[1]), _arg_text(le)
                 norm = lambda t: t.replace(" ", "").replace("(", "").replace(")", "")
                 ok = norm(stxt) == norm(itxt) and norm(dtxt) == norm(itxt) + "+1" and norm(ltxt) == norm(kc) + "-" + norm(itxt) and pos(call) < pos(st[0])
+                if not ok and pos(call) < pos(st[0]):
+                    # the same positions written differently: compare the values for small indices and counts
+                    from . import ceval
+                    inode = X.strip(X.strip(st[0]).children[0]).children[1]
+                    names = sorted({x.name for x in inode.walk() if x.k == "DeclRefExpr"})
+                    same = len(names) == 1
+                    for iv in range(0, 4) if same else ():
+                        for cv in range(iv, 5):
+                            env = {names[0]: iv, kc: cv}
+                            vals = [ceval.ev(inode, env), ceval.ev(s[1], env), ceval.ev(d[1], env), ceval.ev(le, env)]
+                            if None in vals or not (vals[1] == vals[0] and vals[2] == vals[0] + 1 and vals[3] == cv - vals[0]):
+                                same = False
+                    ok = same
                 if ok:
                     ck.holds(rid, inst, call.where, "elements %s .. count-1 move up by one before the new element is stored at %s" % (itxt, itxt), cfg)
                 else:
